@@ -1,12 +1,12 @@
 (* C05 - the property theorems, and nothing else.  Each is closed by [exact] of a lemma
-   of C05/{Proofs,Gabor,Gammatone,Response,Bank,Integrals,Gauss,GaborIntegrals}.v; the axioms each depends on are
+   of C05/{Proofs,Gabor,Gammatone,Response,Bank,Integrals,Gauss,GaborIntegrals,GammatoneImages}.v; the axioms each depends on are
    printed beneath it.  All are statements about gen/Banks.v and gen/Scales.v, which are
    regenerated from filters.py / util.py / config.py / scales.py on every run, through
    C05/Model.v. *)
 From Coq Require Import Reals ZArith Bool.
 From Flocq Require Import Core.Raux.
 From Coquelicot Require Import Coquelicot.
-From Verif Require Import gen.Scales gen.Banks C05.Model C05.Proofs C05.Gabor C05.Gammatone C05.Response C05.Bank C05.Integrals C05.Gauss C05.GaborIntegrals.
+From Verif Require Import gen.Scales gen.Banks C05.Model C05.Proofs C05.Gabor C05.Gammatone C05.Response C05.Bank C05.Integrals C05.Gauss C05.GaborIntegrals C05.GammatoneImages.
 Open Scope R_scope.
 
 Theorem mel_scale_ok :
@@ -612,3 +612,40 @@ Theorem gammatone_l2_integral :
 Proof. exact gammatone_l2_integral_l. Qed.
 Print Assumptions gammatone_l2_integral.
 
+(* The periodic images of a gammatone filter whose support spans less than half the sampling rate
+   (get_frequency_response adds H(omega + 2 pi k) over the periods meeting the support). *)
+Theorem gammatone_magnitude_decreases_with_distance :
+  forall (c alpha xi : R) (n : nat) (w1 w2 : R), 0 <= c -> 0 < alpha ->
+       Rabs (w1 - xi) <= Rabs (w2 - xi) ->
+       gammatone_H_abs c alpha xi n w2 <= gammatone_H_abs c alpha xi n w1.
+Proof. exact gammatone_H_abs_antitone_l. Qed.
+Print Assumptions gammatone_magnitude_decreases_with_distance.
+
+Theorem gammatone_support_edge_value :
+  forall (erb : bool) (n : nat) (rate l r : R), (1 <= n)%nat ->
+       let c := gammatone_self_cs_elt false erb n rate l r in
+       let alpha := gammatone_self_alphas_elt erb n rate l r in
+       let xi := gammatone_self_xis_elt rate l r in
+       let d := gammatone_diff_ang false erb n rate l r in
+       gammatone_H_abs c alpha xi n (xi - d) = effective_support_threshold /\
+       gammatone_H_abs c alpha xi n (xi + d) = effective_support_threshold.
+Proof. exact gammatone_support_edge_value_l. Qed.
+Print Assumptions gammatone_support_edge_value.
+
+Theorem gammatone_far_images_below_threshold :
+  forall (erb : bool) (n : nat) (rate l r w : R) (k : Z), (1 <= n)%nat ->
+       let c := gammatone_self_cs_elt false erb n rate l r in
+       let alpha := gammatone_self_alphas_elt erb n rate l r in
+       let xi := gammatone_self_xis_elt rate l r in
+       gammatone_diff_ang false erb n rate l r <= PI ->
+       Rabs (w - xi) <= PI -> (k <> 0)%Z ->
+       gammatone_H_abs c alpha xi n (w + 2 * PI * IZR k) <= effective_support_threshold.
+Proof. exact gammatone_bank_far_images_le_threshold_l. Qed.
+Print Assumptions gammatone_far_images_below_threshold.
+
+Theorem periodised_gain_near_one :
+  forall (z0 : C) (zs : list C) (e : R), Cmod z0 = 1 ->
+       List.Forall (fun z => Cmod z <= e) zs ->
+       Rabs (Cmod (z0 + List.fold_right Cplus 0 zs)%C - 1) <= INR (List.length zs) * e.
+Proof. exact periodised_gain_l. Qed.
+Print Assumptions periodised_gain_near_one.
